@@ -158,7 +158,19 @@ def run(c):
         raise e
 
     def eh(context, error):
+        import sys as _sys
+
         seen.append(("handled", error))
+        # the handler runs WHILE the exception is being handled: sys.exc_info() (what RichTraceback() and the error
+        # templates read when they are given nothing) is that exception
+        seen.append(("exc_info", _sys.exc_info()[1]))
+        try:
+            from mako import exceptions as _ex
+
+            rt = _ex.RichTraceback()
+            seen.append(("rich", rt.error, len(rt.records)))
+        except BaseException as e_:  # noqa
+            seen.append(("rich", e_, -1))
         return True
 
     def given_to_handler():
@@ -200,6 +212,16 @@ def run(c):
                 got_ = given_to_handler()
                 if raised and got_ and got_[0] is not raised[0]:
                     return ("prologue:%s:handler is not given the exception object" % what, "the handler receives the exception that was raised", repr(raised[0]), repr(got_[0]))
+            if h in ("error_handler", "include_error_handler"):
+                hd = given_to_handler()
+                ei = [x[1] for x in seen if isinstance(x, tuple) and x[0] == "exc_info"]
+                ri = [x for x in seen if isinstance(x, tuple) and x[0] == "rich"]
+                if hd and ei and ei[0] is not hd[0]:
+                    return ("prologue:%s:handler runs outside the exception's handling" % what, "inside the handler sys.exc_info() is the exception being handled", repr(hd[0]), repr(ei[0]))
+                # (RichTraceback takes `value or type` from sys.exc_info(): for an exception instance that is false in a
+                # boolean test its .error is the class - outside every listed property, not demanded here)
+                if hd and ri and ((ri[0][1] is not hd[0] and ri[0][1] is not type(hd[0])) or ri[0][2] < 1):
+                    return ("prologue:%s:RichTraceback() in the handler does not describe the exception" % what, "RichTraceback() called in the handler describes the exception being handled", repr(hd[0]), "%r, %d records" % (ri[0][1], ri[0][2]))
             if h == "error_handler":
                 if not out[1].startswith(exp):
                     return ("prologue:%s:output before the failure lost" % what, "text written directly before the failing section stays", exp + "...", out[1])
